@@ -325,11 +325,95 @@ Proof.
       rewrite SBu in H. apply bounds_sound. exact H.
 Qed.
 
+(* ====================== 4b. GeoMean, unweighted, at most 64 values: through the n-th power ======================
+   exp and ln are never evaluated: the observed g satisfies |g^n - prod xs| <= geo_rel n * prod xs *)
+Fixpoint Qprod (xs : list Q) : Q := match xs with [] => 1 | x :: t => x * Qprod t end.
+Fixpoint Qpw (q : Q) (n : nat) : Q := match n with O => 1 | S k => q * Qpw q k end.
+Definition geo_rel (n : nat) : Q := Qofnat n * (Qofnat n + 8) * 64 * (1 # (2 ^ 52)%positive).
+
+Lemma qpow_Qpw q : forall n, qpow q n == Qpw q n.
+Proof. induction n as [|n IH]; cbn [qpow Qpw]; [reflexivity|]. rewrite Qred_correct, IH. reflexivity. Qed.
+
+Lemma Qred_unit_frac p : Qred (1 # p) = 1 # p.
+Proof. unfold Qred. cbn. reflexivity. Qed.
+
+Lemma Qofnat_pos_frac n : (0 < n)%nat -> 1 / Qofnat n == 1 # Pos.of_nat n.
+Proof.
+  intro H. unfold Qofnat. destruct n as [|n]; [lia|].
+  rewrite <- Pos.of_nat_succ. change (Z.of_nat (S n)) with (Zpos (Pos.of_succ_nat n)).
+  generalize (Pos.of_succ_nat n). intro p. unfold Qeq, Qdiv, Qinv, Qmult. cbn. lia.
+Qed.
+
+Section GeoUnweighted.
+Variable n : nat.
+Hypothesis Hn : (0 < n)%nat.
+Let P := Pos.of_nat n.
+
+Lemma coeff_red c : c == 1 / Qofnat n -> Qred c = 1 # P.
+Proof.
+  intro E. rewrite (Qred_complete c (1 # P)); [apply Qred_unit_frac|]. rewrite E. apply Qofnat_pos_frac. exact Hn.
+Qed.
+
+Lemma lcm_dens_unit : forall cs a, (a = 1 \/ a = Zpos P)%Z -> Forall (fun c => c == 1 / Qofnat n) cs ->
+  let r := fold_left (fun a c => Z.lcm a (Zpos (Qden (Qred c)))) cs a in (r = a /\ cs = [] \/ r = Zpos P).
+Proof.
+  induction cs as [|c cs IH]; intros a Ha F; cbn [fold_left]; [left; split; reflexivity|].
+  inversion F as [|? ? Hc F']; subst. right. rewrite (coeff_red c Hc). cbn [Qden].
+  assert (L : Z.lcm a (Zpos P) = Zpos P).
+  { destruct Ha as [->| ->]; [apply Z.lcm_1_l_nonneg; lia | apply Z.lcm_diag_nonneg; lia]. }
+  rewrite L. destruct (IH (Zpos P) (or_intror eq_refl) F') as [[E _]|E]; exact E.
+Qed.
+
+Lemma P_is_n : inject_Z (Zpos P) == Qofnat n.
+Proof. unfold P, Qofnat. rewrite <- positive_nat_Z, Nat2Pos.id by lia. reflexivity. Qed.
+
+Lemma coeff_exp c : c == 1 / Qofnat n -> Z.to_nat (Qnum (Qred (c * inject_Z (Zpos P)))) = 1%nat.
+Proof.
+  intro E. rewrite (Qred_complete _ 1); [reflexivity|]. rewrite E, P_is_n. field.
+  unfold Qofnat. intro Z0. unfold Qeq in Z0. cbn in Z0. lia.
+Qed.
+
+Lemma target_prod : forall xs cs a, length cs = length xs -> Forall (fun c => c == 1 / Qofnat n) cs ->
+  fold_left (fun a p => Qred (a * qpow (fst p) (snd p)))
+            (combine xs (map (fun c => Z.to_nat (Qnum (Qred (c * inject_Z (Zpos P))))) cs)) a == a * Qprod xs.
+Proof.
+  induction xs as [|x xs IH]; intros [|c cs] a L F; cbn [length] in L; try discriminate; cbn [map combine fold_left Qprod]; [ring|].
+  inversion F as [|? ? Hc F']; subst. rewrite (IH cs _ ltac:(lia) F'). rewrite Qred_correct. cbn [fst snd].
+  rewrite (coeff_exp c Hc). cbn [qpow]. rewrite Qred_correct. ring.
+Qed.
+End GeoUnweighted.
+
+Theorem geomean_value_sound xs g : (length xs <= 64)%nat ->
+  g_check xs (geomean xs) 0 (XFin g) <> 2%Z -> geomean xs <> GNaN ->
+  0 < g /\ Qabs (Qpw g (length xs) - Qprod xs) <= geo_rel (length xs) * Qprod xs.
+Proof.
+  intros L64 G NN. unfold g_check in G. destruct (geomean xs) as [|cs] eqn:GM; [congruence|]. clear NN.
+  destruct (geomean_coeffs xs cs GM) as (Lc & Fc & Fx).
+  assert (Hn : (0 < length xs)%nat) by (destruct xs; [discriminate GM | cbn; lia]).
+  cbn [Z.eqb] in G. unfold geo_check in G.
+  destruct (Qle_bool g 0) eqn:E0; [congruence|]. apply Qle_bool_false in E0. split; [exact E0|].
+  assert (D : lcm_dens cs = Zpos (Pos.of_nat (length xs))).
+  { unfold lcm_dens. destruct (lcm_dens_unit (length xs) Hn cs 1%Z (or_introl eq_refl) Fc) as [[_ E]|E]; [|exact E].
+    subst cs. cbn in Lc. lia. }
+  cbv zeta in G. rewrite D in G.
+  destruct (64 <? Z.pos (Pos.of_nat (length xs)))%Z eqn:B.
+  { apply Z.ltb_lt in B. rewrite <- (Nat2Pos.id (length xs)) in L64 by lia. lia. }
+  match type of G with (if ?b then _ else _) <> _ => destruct b eqn:W; [|congruence] end.
+  apply within_sound in W.
+  rewrite (target_prod (length xs) Hn xs cs 1 Lc Fc) in W. rewrite qpow_Qpw in W.
+  rewrite Z2Nat.inj_pos, Nat2Pos.id in W by lia.
+  unfold geo_rel. unfold nq in W. rewrite (P_is_n (length xs) Hn) in W.
+  setoid_replace (1 * Qprod xs) with (Qprod xs) in W by ring. exact W.
+Qed.
+
 (* ====================== 5. kind 0: every statistic of one sample ====================== *)
-(* GeoMean (partial reading: NaN-ness and sign; the value test geo_check is not composed) *)
+(* GeoMean: NaN exactly for the empty sample or a non-positive value; else a positive float whose n-th power is
+   within geo_rel n of the product of the values when n <= 64 (for n > 64 the check only brackets g: partial) *)
 Definition geo_ok (xs : list Q) (o : xreal) : Prop :=
   ((xs = [] \/ exists x, In x xs /\ x <= 0) -> o = XNaN) /\
-  (xs <> [] -> (forall x, In x xs -> 0 < x) -> exists g, o = XFin g /\ 0 < g).
+  (xs <> [] -> (forall x, In x xs -> 0 < x) ->
+     exists g, o = XFin g /\ 0 < g /\
+       ((length xs <= 64)%nat -> Qabs (Qpw g (length xs) - Qprod xs) <= geo_rel (length xs) * Qprod xs)).
 
 Definition stats_ok (sorted hasw : bool) (xs ws : list Q) (o : stat_obs) : Prop :=
   let w := ows hasw ws in
@@ -347,16 +431,21 @@ Lemma first_false_forall l : first_false l = None -> Forall (fun b => b = true) 
 Proof. intro H. apply Forall_forall. intros b Hb. exact (first_false_none l H b Hb). Qed.
 Ltac pop R B := apply Forall_cons_iff in R; destruct R as [B R].
 
-Lemma geo_sound xs st o : negb (g_check xs (geomean xs) st o =? 2)%Z = true -> st = 0%Z -> geo_ok xs o.
+Lemma geo_sound xs o : negb (g_check xs (geomean xs) 0 o =? 2)%Z = true -> geo_ok xs o.
 Proof.
-  intros H S. subst st. breflect. unfold geo_ok, g_check in *. split.
-  - intro N. apply geomean_nan_iff in N. rewrite N in H. cbn [Z.eqb andb] in H.
+  intros H. breflect. unfold geo_ok. split.
+  - intro N. apply geomean_nan_iff in N. unfold g_check in H. rewrite N in H. cbn [Z.eqb andb] in H.
     destruct (is_nan o) eqn:E; [now apply is_nan_true | congruence].
-  - intros Hx Hp. destruct (geomean xs) as [|cs] eqn:G.
-    + exfalso. apply geomean_nan_iff in G. destruct G as [G|(x & I & L)]; [contradiction|].
-      specialize (Hp x I). lra.
-    + cbn [Z.eqb] in H. unfold geo_check in H. destruct o as [| |g]; try congruence.
-      destruct (Qle_bool g 0) eqn:E; [congruence|]. apply Qle_bool_false in E. exists g. split; [reflexivity | exact E].
+  - intros Hx Hp. assert (NN : geomean xs <> GNaN).
+    { intro G. apply geomean_nan_iff in G. destruct G as [G|(x & I & L)]; [contradiction|]. specialize (Hp x I). lra. }
+    destruct o as [| |g].
+    + exfalso. apply H. unfold g_check. destruct (geomean xs); [congruence | reflexivity].
+    + exfalso. apply H. unfold g_check. destruct (geomean xs); [congruence | reflexivity].
+    + exists g. split; [reflexivity|].
+      assert (P : 0 < g).
+      { apply Qnot_le_lt. intro L. apply H. unfold g_check. destruct (geomean xs); [congruence|]. cbn [Z.eqb]. unfold geo_check.
+        apply Qle_bool_iff in L. rewrite L. reflexivity. }
+      split; [exact P|]. intro L64. exact (proj2 (geomean_value_sound xs g L64 H NN)).
 Qed.
 
 Theorem check_stats_sound sorted hasw xs ws o c tag pos diag :
@@ -373,7 +462,7 @@ Proof.
   split; [exact (mean_sound xs _ 0 _ B0)|].
   split; [exact (variance_sound xs 0 _ B1)|].
   split; [exact (stddev_sound xs 0 _ B2)|].
-  split; [exact (geo_sound xs 0 _ B3 eq_refl)|].
+  split; [exact (geo_sound xs _ B3)|].
   split; [exact (bounds_sound xs _ _ B4)|].
   split; [apply (smean_sound xs (ows hasw ws) sorted); destruct hasw; exact B5|].
   split; [apply (svar_sound_stats xs (ows hasw ws) sorted); destruct hasw; exact B6|].
@@ -545,85 +634,4 @@ Theorem check_ok_sound line cs c tag pos diag :
   check_C09 line = verdict c tag pos diag -> (c = 0 \/ c = 1)%Z -> p_line line = Some (cs, []) -> c = 0%Z /\ case_ok cs.
 Proof.
   intros V Hc P. unfold check_C09 in V. rewrite P in V. eapply check_case_sound; eassumption.
-Qed.
-
-(* ====================== 9. GeoMean, unweighted, at most 64 values: through the n-th power ======================
-   exp and ln are never evaluated: the observed g satisfies |g^n - prod xs| <= geo_rel n * prod xs *)
-Fixpoint Qprod (xs : list Q) : Q := match xs with [] => 1 | x :: t => x * Qprod t end.
-Fixpoint Qpw (q : Q) (n : nat) : Q := match n with O => 1 | S k => q * Qpw q k end.
-Definition geo_rel (n : nat) : Q := Qofnat n * (Qofnat n + 8) * 64 * (1 # (2 ^ 52)%positive).
-
-Lemma qpow_Qpw q : forall n, qpow q n == Qpw q n.
-Proof. induction n as [|n IH]; cbn [qpow Qpw]; [reflexivity|]. rewrite Qred_correct, IH. reflexivity. Qed.
-
-Lemma Qred_unit_frac p : Qred (1 # p) = 1 # p.
-Proof. unfold Qred. cbn. reflexivity. Qed.
-
-Lemma Qofnat_pos_frac n : (0 < n)%nat -> 1 / Qofnat n == 1 # Pos.of_nat n.
-Proof.
-  intro H. unfold Qofnat. destruct n as [|n]; [lia|].
-  rewrite <- Pos.of_nat_succ. change (Z.of_nat (S n)) with (Zpos (Pos.of_succ_nat n)).
-  generalize (Pos.of_succ_nat n). intro p. unfold Qeq, Qdiv, Qinv, Qmult. cbn. lia.
-Qed.
-
-Section GeoUnweighted.
-Variable n : nat.
-Hypothesis Hn : (0 < n)%nat.
-Let P := Pos.of_nat n.
-
-Lemma coeff_red c : c == 1 / Qofnat n -> Qred c = 1 # P.
-Proof.
-  intro E. rewrite (Qred_complete c (1 # P)); [apply Qred_unit_frac|]. rewrite E. apply Qofnat_pos_frac. exact Hn.
-Qed.
-
-Lemma lcm_dens_unit : forall cs a, (a = 1 \/ a = Zpos P)%Z -> Forall (fun c => c == 1 / Qofnat n) cs ->
-  let r := fold_left (fun a c => Z.lcm a (Zpos (Qden (Qred c)))) cs a in (r = a /\ cs = [] \/ r = Zpos P).
-Proof.
-  induction cs as [|c cs IH]; intros a Ha F; cbn [fold_left]; [left; split; reflexivity|].
-  inversion F as [|? ? Hc F']; subst. right. rewrite (coeff_red c Hc). cbn [Qden].
-  assert (L : Z.lcm a (Zpos P) = Zpos P).
-  { destruct Ha as [->| ->]; [apply Z.lcm_1_l_nonneg; lia | apply Z.lcm_diag_nonneg; lia]. }
-  rewrite L. destruct (IH (Zpos P) (or_intror eq_refl) F') as [[E _]|E]; exact E.
-Qed.
-
-Lemma P_is_n : inject_Z (Zpos P) == Qofnat n.
-Proof. unfold P, Qofnat. rewrite <- positive_nat_Z, Nat2Pos.id by lia. reflexivity. Qed.
-
-Lemma coeff_exp c : c == 1 / Qofnat n -> Z.to_nat (Qnum (Qred (c * inject_Z (Zpos P)))) = 1%nat.
-Proof.
-  intro E. rewrite (Qred_complete _ 1); [reflexivity|]. rewrite E, P_is_n. field.
-  unfold Qofnat. intro Z0. unfold Qeq in Z0. cbn in Z0. lia.
-Qed.
-
-Lemma target_prod : forall xs cs a, length cs = length xs -> Forall (fun c => c == 1 / Qofnat n) cs ->
-  fold_left (fun a p => Qred (a * qpow (fst p) (snd p)))
-            (combine xs (map (fun c => Z.to_nat (Qnum (Qred (c * inject_Z (Zpos P))))) cs)) a == a * Qprod xs.
-Proof.
-  induction xs as [|x xs IH]; intros [|c cs] a L F; cbn [length] in L; try discriminate; cbn [map combine fold_left Qprod]; [ring|].
-  inversion F as [|? ? Hc F']; subst. rewrite (IH cs _ ltac:(lia) F'). rewrite Qred_correct. cbn [fst snd].
-  rewrite (coeff_exp c Hc). cbn [qpow]. rewrite Qred_correct. ring.
-Qed.
-End GeoUnweighted.
-
-Theorem geomean_value_sound xs g : (length xs <= 64)%nat ->
-  g_check xs (geomean xs) 0 (XFin g) = 0%Z -> geomean xs <> GNaN ->
-  0 < g /\ Qabs (Qpw g (length xs) - Qprod xs) <= geo_rel (length xs) * Qprod xs.
-Proof.
-  intros L64 G NN. unfold g_check in G. destruct (geomean xs) as [|cs] eqn:GM; [congruence|]. clear NN.
-  destruct (geomean_coeffs xs cs GM) as (Lc & Fc & Fx).
-  assert (Hn : (0 < length xs)%nat) by (destruct xs; [discriminate GM | cbn; lia]).
-  cbn [Z.eqb] in G. unfold geo_check in G.
-  destruct (Qle_bool g 0) eqn:E0; [discriminate|]. apply Qle_bool_false in E0. split; [exact E0|].
-  assert (D : lcm_dens cs = Zpos (Pos.of_nat (length xs))).
-  { unfold lcm_dens. destruct (lcm_dens_unit (length xs) Hn cs 1%Z (or_introl eq_refl) Fc) as [[_ E]|E]; [|exact E].
-    subst cs. cbn in Lc. lia. }
-  cbv zeta in G. rewrite D in G.
-  destruct (64 <? Z.pos (Pos.of_nat (length xs)))%Z eqn:B.
-  { apply Z.ltb_lt in B. rewrite <- (Nat2Pos.id (length xs)) in L64 by lia. lia. }
-  match type of G with (if ?b then _ else _) = _ => destruct b eqn:W; [|discriminate] end.
-  apply within_sound in W.
-  rewrite (target_prod (length xs) Hn xs cs 1 Lc Fc) in W. rewrite qpow_Qpw in W.
-  rewrite Z2Nat.inj_pos, Nat2Pos.id in W by lia.
-  unfold geo_rel. unfold nq in W. rewrite (P_is_n (length xs) Hn) in W.
-  setoid_replace (1 * Qprod xs) with (Qprod xs) in W by ring. exact W.
 Qed.
